@@ -372,6 +372,9 @@ class Run:
             raise Unsupported('assignment target %s' % type(target).__name__)
 
     def setattr(self, base, attr, v):
+        if not self.spec_mode and isinstance(v, Lazy) and v.kind in ('lambda', 'genexp'):
+            # C19: what a bandit stores must survive copy.deepcopy and pickle (no lambdas, generators, local functions)
+            raise Unsupported('copy-universe: attribute %s is assigned a %s, which cannot be pickled' % (attr, v.kind))
         if isinstance(base, Ref):
             o = self.deref(base)
             if isinstance(o, Obj):
